@@ -343,7 +343,7 @@ def run_lines(exe, lines, timeout=600, shards=1, args=()):
     if shards <= 1 or len(lines) < 4 * shards:
         data = ('\n'.join(lines) + '\n').encode()
         p = subprocess.run([exe] + list(args), input=data, stdout=subprocess.PIPE, stderr=subprocess.PIPE, timeout=timeout,
-                           preexec_fn=_big_stack)
+                           preexec_fn=(_big_stack if os.sep + 'ocaml' + os.sep in exe else None))
         out = p.stdout.decode('utf-8', 'replace').split('\n')
         if out and out[-1] == '':
             out.pop()
